@@ -5,7 +5,9 @@ yet finished is already in place (storeBlob moves it there) but not yet loadable
 commit then finishes normally and leaves a committed blob record WITHOUT its file:
 loadBlob raises POSKeyError('No blob file'), readers of the blob fail.
 (FileStorage(blob_dir=...) is not affected: its pack tags files from the records it drops.)
-Deterministic, single thread: the base pack frees nothing here, so it never needs the commit lock.
+Deterministic, single thread: the base pack frees nothing here, so it never needs the commit lock
+(with data to free the pack of the wrapped FileStorage waits for the commit lock; the removal then hits
+transactions that begin while _packUndoing walks the directory — seen in the scheduler runs).
 exit 0: property holds, exit 1: violated.
 """
 import logging, os, shutil, sys, tempfile, time
@@ -22,7 +24,7 @@ d = tempfile.mkdtemp()
 ok = False
 try:
     st = BlobStorage(os.path.join(d, 'blobs'), FileStorage(os.path.join(d, 'Data.fs')))
-    db = ZODB.DB(st); c = db.open(); c.root()['x'] = 1; transaction.commit()
+    db = ZODB.DB(st)        # only the root transaction: the base pack frees nothing
     oid = st.new_oid()
     src = os.path.join(d, 'incoming'); open(src, 'wb').write(b'blob data')
     t = TransactionMetaData()
